@@ -79,6 +79,7 @@ func runExpScript(trNo int, mode, scratch string, ops []ExpOp) ([]ExpLine, error
 		at   time.Time
 	}
 	var dels []delEv
+	reopens := 0
 	terms := []chan bool{}
 	openColl := func(c string) error {
 		ds, err := b.NamedDataStore(dsName(c))
@@ -219,7 +220,13 @@ func runExpScript(trNo int, mode, scratch string, ops []ExpOp) ([]ExpLine, error
 				}
 				terms = nil
 				b.Close(ctx)
-				b, err = rosmar.OpenBucket(url, name, rosmar.ReOpenExisting)
+				// (in either mode that finds an existing bucket: the pending deadlines are in force again, whichever it is)
+				reopens++
+				var omode rosmar.OpenMode = rosmar.ReOpenExisting
+				if reopens%2 == 1 {
+					omode = rosmar.CreateOrOpen
+				}
+				b, err = rosmar.OpenBucket(url, name, omode)
 				if err == nil {
 					err = open()
 				}
